@@ -98,6 +98,7 @@ func H_C04_update() {
 
 // H_C04_standalone: update mode replaces a standalone file wholesale.
 func H_C04_standalone() {
+	vxrt.Chdir() // the working directory is not the test file's (and natively several levels deep)
 	vxrt.CI(false)
 	dir := vxrt.Dir()
 	n := vxrt.Param("n", 3)
@@ -133,7 +134,12 @@ func H_C04_layouts() {
 	ids := []string{"TestA - 1", "TestB - 1", "TestC - 1"}
 	old := []string{"a-old", "b-old\nsecond", "c-old"}
 	var content string
-	switch vxrt.Choice("layout", 5) {
+	switch vxrt.Choice("layout", 6) {
+	case 5: // CRLF line endings between the entries (an autocrlf checkout); one-line values only
+		old = []string{"a-old", "b-old", "c-old"}
+		for k := range ids {
+			content += "\r\n[" + ids[k] + "]\r\n" + old[k] + "\r\n---\r\n"
+		}
 	case 0: // as written by the library
 		content = vxFrame(ids[0], old[0]) + vxFrame(ids[1], old[1]) + vxFrame(ids[2], old[2])
 	case 1: // no newline at the very end
